@@ -35,7 +35,8 @@ RULE = ('C04\'s (reference, actual, options) generator through '
 ASSUMPTIONS = ['the raw-actual file written for a string actual is compared '
                'line by line; a final newline is not significant (C04)']
 
-ENTRIES = ['assertStringCorrect', 'assertTextFileCorrect']
+ENTRIES = ['assertStringCorrect', 'assertTextFileCorrect',
+           'assertTextFilesCorrect']
 
 
 def bin_pair():
@@ -241,6 +242,15 @@ def run_in(case, ctx, d, tmp, refdir, cwd, actdir, systmp, out):
     out.label('entry:' + entry, 'ref-missing' if case['ref_missing']
               else 'ref-present')
 
+    if not binary and entry == 'assertTextFilesCorrect':
+        pre_ref = os.path.join(refdir, 'first.txt')
+        pre_act = os.path.join(actdir, 'first.txt')
+        sub = (o['ignore_substrings'] or [None])[0]
+        with open(pre_ref, 'w', encoding='utf-8') as f:
+            f.write('first file\nline %s OLD\nend\n' % (sub or 'same'))
+        with open(pre_act, 'w', encoding='utf-8') as f:
+            f.write('first file\nline %s\nend\n'
+                    % ((sub + ' NEW') if sub else 'same OLD'))
     dirs = {'tmp_dir': tmp, 'reference-dir': refdir, 'cwd': cwd,
             'actual-dir': actdir, 'system-temp': systmp}
     if not binary and case.get('prior_failure'):
@@ -275,6 +285,12 @@ def run_in(case, ctx, d, tmp, refdir, cwd, actdir, systmp, out):
     elif entry == 'assertStringCorrect':
         ok, r = call(rt.assertStringCorrect, act_text, ref_path,
                      **c04.kwargs_for(o))
+    elif entry == 'assertTextFilesCorrect' and not case['ref_missing']:
+        # the pair under test comes second; the first pair agrees modulo an
+        # excused line (when an ignore-substring is in force), so whatever
+        # is reported and written is about the second pair only
+        ok, r = call(rt.assertTextFilesCorrect, [pre_act, act_path],
+                     [pre_ref, ref_path], **c04.kwargs_for(o))
     else:
         ok, r = call(rt.assertTextFileCorrect, act_path, ref_path,
                      **c04.kwargs_for(o))
@@ -349,7 +365,8 @@ def run_in(case, ctx, d, tmp, refdir, cwd, actdir, systmp, out):
             out.violate('message-names-command', 'missing-ref-not-cp',
                         'reference missing but command is %r' % cmd)
     # the file given as actual
-    if binary or entry == 'assertTextFileCorrect':
+    if binary or entry in ('assertTextFileCorrect',
+                           'assertTextFilesCorrect'):
         if os.path.realpath(a) != os.path.realpath(act_path):
             out.violate('actual-file-faithful', 'not-the-actual-file',
                         '%s: command names %s as actual, the actual file is '
